@@ -190,7 +190,10 @@ def run_case(case, tier):
         from .. import fragments
         from .c16 import titratable_anchor
         for kfrag in range(rng.choice((1, 1, 2))):
-            fname = rng.choice(sorted(fragments.FRAGMENTS))
+            # (groups recognised by counting the neighbours of their nitrogens come up more often: whether hydrogens
+            # are present at that moment depends on the options)
+            fname = rng.choice(sorted(fragments.FRAGMENTS) + ["acetamidinium", "methylguanidinium", "aniline", "n-methylacetamide",
+                                                               "acetamidinium", "methylguanidinium", "dimethylamine", "trimethylamine"] * 2)
             frag, _e, _d = fragments.place_near(recs, fname, rng, anchor=titratable_anchor(recs, rng),
                                                 dist_A=rng.choice((3.0, 3.5, 4.5, 6.0)), resnum=900 + kfrag, min_clear_A=2.7)
             if frag:
